@@ -31,7 +31,10 @@
 //   - parked consumer (parked_test.go, TestGroupParkedConsumer): operations of other roles while the
 //     group's consumer waits inside Consume, then the wake-up (append / Pause / Stop / Close);
 //   - page-store faults (fault_test.go, TestGroupPageFaults): the creation of an index / data / group
-//     meta page file fails once or twice, the caller retries.
+//     meta page file fails once or twice, the caller retries;
+//   - interleaved reset (reset_race_test.go, TestGroupResetInterleaved): one operation of another actor
+//     (consumer turns, Ack, Pending/IsEmpty, Sync, Put, creation of a group) nested at a seam inside
+//     FanOutQueue.SetAppendedSeq (its page stores, entry to / return from each group's SetSeq).
 package c06
 
 import (
@@ -182,12 +185,17 @@ type world struct {
 	qackBySync bool // the queue ack was last moved by a Sync (not by an index reset)
 	ntBack     bool // a reset below a queue ack that Sync had moved was followed by an append
 	ntRace     bool // the racing actor reset into the index page GC was unmapping
+
+	// reset_race_test.go
+	resetRace   bool // the machine also nests an operation of another actor at a page store inside the index reset
+	ntResetRace bool // a consumer step ran inside the reset, after one group was positioned, on a group that had data pending beyond the target
 }
 
 // machineMode selects the extra operation classes of a history (see the tests that set them).
 type machineMode struct {
 	createRace, parked, faults bool
 	backReset, gcRace          bool
+	resetRace                  bool
 }
 
 func (w *world) logf(format string, args ...any) {
@@ -800,11 +808,37 @@ func (w *world) opReopen() {
 	w.fq = nil
 	w.open()
 	nonInitial := w.appended >= 0
+
+	// The re-opened queue knows every persisted group (open or stopped before: the meta page of a stopped
+	// group stays on disk) before anybody asks for it: "ConsumerGroupNames returns all names", and Sync takes
+	// the minimum over the groups the queue lists.
+	var persisted []string
 	for _, n := range w.universe {
-		g, ok := w.groups[n]
-		if !ok {
-			continue
+		if _, ok := w.groups[n]; ok {
+			persisted = append(persisted, n)
 		}
+	}
+	listed := w.fq.ConsumerGroupNames()
+	sort.Strings(listed)
+	if want := append([]string(nil), persisted...); strings.Join(listed, ",") != strings.Join(sortedCopy(want), ",") {
+		w.logf("reopen")
+		w.fatalf("reopen: the re-opened fan-out queue lists the groups %v before any group is requested, the persisted groups are %v (Sync would take the minimum over the listed groups only and GC could collect messages an unlisted group has not acknowledged)",
+			listed, sortedCopy(want))
+	}
+	// The replicas of a partition are rebuilt one after the other (GetOrCreateConsumerGroup per replica) while
+	// the expiry ticker runs: a drawn part of the groups is requested, then Sync + GC, then the rest. The
+	// positions of ALL persisted groups hold the queue ack back (model: every group is attached at open).
+	before := len(persisted)
+	order := persisted
+	tickBetween := false
+	if len(persisted) > 0 && rapid.IntRange(0, 2).Draw(w.t, "reopenTickBeforeAllRequested") == 0 {
+		tickBetween = true
+		before = rapid.IntRange(0, len(persisted)-1).Draw(w.t, "reopenRequestedBeforeTick")
+		rot := rapid.IntRange(0, len(persisted)-1).Draw(w.t, "reopenRequestFrom")
+		order = append(append([]string(nil), persisted[rot:]...), persisted[:rot]...)
+	}
+	request := func(n string) {
+		g := w.groups[n]
 		h, err := w.fq.GetOrCreateConsumerGroup(n)
 		if err != nil {
 			w.fatalf("GetOrCreateConsumerGroup(%s) after reopen: %v", n, err)
@@ -812,6 +846,49 @@ func (w *world) opReopen() {
 		w.attach(g, h, "reopen")
 		if g.consumed >= 0 || g.ack >= 0 {
 			nonInitial = true
+		}
+	}
+	for _, n := range order[:before] {
+		request(n)
+	}
+	if tickBetween {
+		lagging := false
+		minReq, hasReq := int64(0), false
+		for _, n := range order[:before] {
+			if a := w.groups[n].ack; !hasReq || a < minReq {
+				minReq, hasReq = a, true
+			}
+		}
+		for _, n := range order[before:] {
+			g := w.groups[n]
+			// what attach will find: the group was loaded at open, its ack raised to the queue ack of that moment
+			if g.ack < w.qack {
+				g.ack = w.qack
+			}
+			g.open, g.paused = true, false
+			if !hasReq || g.ack < minReq {
+				lagging = true
+			}
+		}
+		q0 := w.qack
+		w.sync()
+		removed := w.gc()
+		w.pairTick = true // the Sync ran inside this step: the queue ack is judged against the acks of this moment
+		w.class("reopen-tick-before-all-groups-requested")
+		w.class(fmt.Sprintf("reopen-tick-after-%d-of-%d-groups-requested", before, len(persisted)))
+		if lagging {
+			w.class("reopen-tick-while-a-not-yet-requested-group-holds-the-queue-ack-back")
+		}
+		if w.qack != q0 {
+			w.class("reopen-tick-before-all-groups-requested-moved-queue-ack")
+		}
+		w.logf("reopen: %v requested, then sync+gc before %v are requested -> queueAck=%d, %d page files removed", order[:before], order[before:], w.qack, removed)
+		if qa := w.fq.Queue().AcknowledgedSeq(); qa != w.qack {
+			w.fatalf("reopen: after Sync directly after the reopen, with only the groups %v requested again, the queue acknowledged position is %d; the minimum over the persisted positions of ALL groups (%v are not requested yet) puts it at %d (it was %d; model: %s)",
+				order[:before], qa, order[before:], w.qack, q0, w.modelString())
+		}
+		for _, n := range order[before:] {
+			request(n)
 		}
 	}
 	if nonInitial {
@@ -936,6 +1013,7 @@ func runHistoryMode(t *rapid.T, test string, thorough, heavy bool, mode machineM
 		universe: []string{"1", "2", "3", "4"}, // production names groups by node id
 		thorough: thorough, heavy: heavy, createRace: createRace, parked: mode.parked, faults: mode.faults,
 		backReset: mode.backReset && !heavy, gcRace: mode.gcRace && !heavy,
+		resetRace: mode.resetRace && !heavy,
 	}
 	defer func() {
 		if w.fq != nil {
@@ -1033,6 +1111,14 @@ func runHistoryMode(t *rapid.T, test string, thorough, heavy bool, mode machineM
 		}
 		actions["catchUpAll2"] = step(w.opCatchUpAll)
 	}
+	if w.resetRace {
+		// TestGroupResetInterleaved: operations of other actors nested at the page stores inside the index reset
+		for _, k := range []string{"resetRace", "resetRace2", "resetRace3", "resetRace4", "resetRace5", "resetRace6"} {
+			actions[k] = step(w.opResetRace)
+		}
+		actions["catchUpAll2"] = step(w.opCatchUpAll)
+		actions["createGroup2"] = step(w.opCreateGroup)
+	}
 	if heavy {
 		delete(actions, "pause") // a paused group pins the queue ack until the next reopen
 		actions["bigAppend"] = step(w.opBigAppend)
@@ -1101,13 +1187,22 @@ func runHistoryMode(t *rapid.T, test string, thorough, heavy bool, mode machineM
 		nonTrivial = w.ntFault
 	case w.gcRace:
 		nonTrivial = w.ntBack || w.ntRace
+	case w.resetRace:
+		nonTrivial = w.ntResetRace
 	}
 	ev.Case(test, strings.Join(w.ops, ";"), nonTrivial, nil,
 		map[string]any{"history": w.ops, "final": w.modelString(),
 			"gc_removed_page_with_different_acks": w.ntGC, "reopen_with_positions": w.ntReopen, "interleaved_pair": w.ntPair,
 			"sync_inside_reopen_window_of_lagging_group": w.ntCreate, "parked_consumer_woken_after_position_change": w.ntParked,
 			"append_failed_at_page_creation_then_retried": w.ntFault,
-			"reset_below_synced_queue_ack_then_append": w.ntBack, "gc_raced_by_reset_into_the_collected_page": w.ntRace})
+			"reset_below_synced_queue_ack_then_append":    w.ntBack, "gc_raced_by_reset_into_the_collected_page": w.ntRace,
+			"consumer_step_inside_index_reset_on_group_with_pending_data": w.ntResetRace})
+}
+
+func sortedCopy(in []string) []string {
+	out := append([]string(nil), in...)
+	sort.Strings(out)
+	return out
 }
 
 func (w *world) anyKnownShape() bool {
